@@ -1297,6 +1297,9 @@ def run(tier: str, seed: int, replay=None) -> int:
                 ct7 = set(c["const_tags"])
                 m = [0, [[r[0], -1 if set(r[0]) <= ct7 else r[1]] for r in m[1]]] + list(m[2:])
         s_ok = spec_matches(impl, s)
+        if r7 and model_ok and case_class(fr) == "U_unsettled":
+            unsettled["cases"] += 1          # (reading not settled, and an open finding of round 7 may apply: not compared)
+            continue
         if r7 and model_ok and not s_ok and case_class(fr) != "U_unsettled":
             cls7 = {"const_tags": "K_const_concl", "boxes": "K_flatten_key", "selected_let": "K_selected_let"}[r7]
             if cls7 in open_classes and round7_defect_behaviour(c, impl, s_raw):
